@@ -22,6 +22,7 @@ def main():
     for prop in props:
         for mid, file, old, new, rule in load(prop):
             if only and only != mid: continue
+            if os.environ.get('MUTANT_PREFIX') and not mid.startswith(os.environ['MUTANT_PREFIX']): continue
             path = os.path.join(REPO, file)
             s = open(path).read()
             if s.count(old) != 1:
